@@ -121,6 +121,7 @@ func Run(p *load.Program, tier string) *oblig.Set {
 	if tier == "thorough" {
 		maxCalls = 10
 	}
+	reentrantRule(p, s)
 	sp := p.SPkg("combinator")
 	if sp == nil {
 		s.Unk("ANCHOR", "package combinator", "-", "not found")
